@@ -126,7 +126,7 @@ class C20(Check):
             program = self.programs[entry[1]]
         else:
             program = workloads.generate(rng)
-        gc = schedules.random_schedule(rng, self.startup, self.startup + 300)
+        gc = schedules.random_schedule(rng, self.startup, self.startup + 300, program.get("heavy", False))
         if rng.random() < 0.25:
             # explicit double-full collections at seeded points
             points = sorted(set(self.startup + rng.randrange(0, 120) for _ in range(rng.randint(1, 5))))
